@@ -25,11 +25,12 @@ class Sym:
 
 
 class Str:
-    """string literal: decoded items (code points / Segs)"""
-    __slots__ = ("items", "span")
+    """string literal: decoded items (code points / Segs); `escaped` = indexes of symbolic characters that were written after a
+    backslash (decoded as themselves: right exactly when the character is a double quote or a backslash)"""
+    __slots__ = ("items", "span", "escaped")
 
-    def __init__(self, items, span=None):
-        self.items, self.span = list(items), span
+    def __init__(self, items, span=None, escaped=()):
+        self.items, self.span, self.escaped = list(items), span, set(escaped)
 
     def text(self):
         return "".join(chr(c) if isinstance(c, int) else "{%s}" % (c,) for c in self.items)
@@ -163,6 +164,7 @@ def read_all(items):
         start = pos[0]
         pos[0] += 1
         out = []
+        esc_idx = []
         while True:
             if pos[0] >= n:
                 raise ReadError("unterminated string literal")
@@ -180,11 +182,19 @@ def read_all(items):
                 continue
             if c == 34:
                 pos[0] += 1
-                return Str(out, (start, pos[0]))
+                return Str(out, (start, pos[0]), esc_idx)
             if c == 92:
                 if pos[0] + 1 >= n:
                     raise ReadError("unterminated escape")
                 e = items[pos[0] + 1]
+                if not isinstance(e, int) and not isinstance(e, Seg):
+                    # an escaped symbolic character: decoded as itself; the analysis (usertext) decides whether it can be anything
+                    # but a double quote or a backslash
+                    esc_idx.append(len(out))
+                    out.append(e)
+                    sym_in_strings.append(e)
+                    pos[0] += 2
+                    continue
                 if not isinstance(e, int):
                     raise ReadError("non-literal escape")
                 if e in STRING_ESCAPES:
